@@ -1234,6 +1234,6 @@ func main() {
 		}
 		add(kind, in)
 	}
-	out.Extra["rule"] = "chains of 0..4 Where/Not/Or calls in any order (leading Or included), units as in C02 (raw with hostile formatting, ? and @named arguments, map, struct, clause expressions, grouped sub-builders, empty forms), on a soft-delete model (column declared as value field, pointer field, embedded struct field or renamed field with column tag) whose every live row has a soft-deleted twin with identical columns; finishers Find/First/Count/Pluck/Rows/FindInBatches, Update, Delete, repeated Delete, Unscoped Find, Unscoped Delete; each chain is also run on the table with the twins physically removed; distinct = chain shapes; non-trivial = a strict non-empty subset of the live rows is selected"
+	out.Extra["rule"] = "chains of 0..4 Where/Not/Or calls in any order (leading Or included), units as in C02 (raw with hostile formatting, ? and @named arguments, map, struct, clause expressions, grouped sub-builders, empty forms), on a soft-delete model (column declared as value field, pointer field, embedded struct field or renamed field with column tag) whose every live row has a soft-deleted twin with identical columns; raw conditions written as parenthesised groups joined by a top-level OR / AND; finishers Find/First/Count/Pluck/Rows/FindInBatches, Update, Delete, repeated Delete, Unscoped Find, Unscoped Delete, Update through a keyed Model value (record or slice) and Delete of a keyed value; each chain is also run on the table with the twins physically removed; every case ends with a history of creates / deletes / updates / reads (records also named through a slice of 0..2 records, single and composite primary key); distinct = chain shapes; non-trivial = a strict non-empty subset of the live rows is selected"
 	lib.Must(out.Flush())
 }
